@@ -14,9 +14,17 @@
 (* code: Get (not found) -> decrypt (wrong passphrase) -> effect.          *)
 (*   keys 1..NKnown  private keys the client holds from the start          *)
 (*                   (ImportPrivateKeyObject)                              *)
-(*   other keys      generated inside the keybase by Create                *)
-(*   arm             encrypted armors the client holds (exports)           *)
+(*   keys in Secp    those of them that are secp256k1 keys: the keybase    *)
+(*                   generates and takes raw ed25519 keys only, a          *)
+(*                   secp256k1 key enters it as an armor made elsewhere    *)
+(*                   (ArmorRaw = mintkey.EncryptArmorPrivKey by the        *)
+(*                   client, then ImportPrivKey)                           *)
+(*   other keys      generated inside the keybase by Create (ed25519)      *)
+(*   arm             encrypted armors the client holds (exports, and       *)
+(*                   armors it made itself from raw keys)                  *)
 (*   known           raw private keys the client holds                     *)
+(*   prog            scenario runs only: the program (a list of calls)     *)
+(*                   still to be performed, see "scenario programs"        *)
 (*   cb              the cached coinbase key pair (a COPY: it goes stale   *)
 (*                   when the key is deleted or re-encrypted; recorded as  *)
 (*                   the code does, not part of the property)              *)
@@ -28,6 +36,7 @@ EXTENDS Integers, Sequences, FiniteSets, TLC, Json
 CONSTANTS
     NK,        \* key ids 1..NK
     NKnown,    \* 1..NKnown are held by the client, NKnown+1..NK are produced by Create
+    Secp,      \* the secp256k1 keys among 1..NKnown (all other keys are ed25519)
     Passes,    \* passphrase NAMES; the replayer binds them so that white space matters:
                \*   "e" the empty passphrase          "w" white space only (= "e" padded)
                \*   "u" a base passphrase (unicode / long / plain, per behaviour)
@@ -38,9 +47,9 @@ CONSTANTS
     MaxArm,    \* bound on the number of exported armors kept
     Depth      \* simulation: length of a behaviour
 
-VARIABLES store, arm, known, created, cb, last, hist
+VARIABLES store, arm, known, created, cb, last, hist, prog
 
-vars  == <<store, arm, known, created, cb, last, hist>>
+vars  == <<store, arm, known, created, cb, last, hist, prog>>
 state == <<store, arm, known, created, cb>>
 
 Keys   == 1..NK
@@ -54,6 +63,11 @@ Dom == { k \in Keys : store[k] # NoPass }
 Res(class, k) == [class |-> class, key |-> k]
 Label(op, k, p, q, a, r) == [op |-> op, k |-> k, p |-> p, q |-> q, a |-> a, res |-> r]
 NoArm == Armor(0, NoPass)
+\* a call of a scenario program (a label without its result), and "no program"
+Call(op, k, p, q, a) == [op |-> op, k |-> k, p |-> p, q |-> q, a |-> a]
+NoProg == [tag |-> <<>>, calls |-> <<>>]
+
+ASSUME Secp \subseteq 1..NKnown
 
 TypeOK ==
     /\ store \in [Keys -> Passes \cup {NoPass}]
@@ -61,7 +75,7 @@ TypeOK ==
     /\ known \subseteq Keys /\ created \subseteq Keys
     /\ cb \in { Armor(k, p) : k \in Keys, p \in Passes } \cup {NoArm}
 
-Init ==
+InitState ==
     /\ store = [k \in Keys |-> NoPass]
     /\ arm = {}
     /\ known = 1..NKnown
@@ -69,9 +83,13 @@ Init ==
     /\ cb = NoArm
     /\ last = Label("Init", 0, NoPass, NoPass, NoArm, Res("ok", 0))
     /\ hist = <<>>
+Init == InitState /\ prog = NoProg
 
-\* every action appends its label to the history (simulation) and publishes it in last
-Emit(l) == last' = l /\ hist' = (IF Len(hist) < Depth THEN Append(hist, [l |-> l, list |-> { k \in Keys : store'[k] # NoPass }, st |-> store']) ELSE hist)
+\* every action appends its label to the history (simulation) and publishes it in last; a scenario
+\* run has performed the first call of its program
+Emit(l) == /\ last' = l
+           /\ hist' = (IF Len(hist) < Depth THEN Append(hist, [l |-> l, list |-> { k \in Keys : store'[k] # NoPass }, st |-> store']) ELSE hist)
+           /\ prog' = (IF prog.calls = <<>> THEN prog ELSE [prog EXCEPT !.calls = Tail(prog.calls)])
 
 \* Create(encryptPassphrase): a fresh key pair generated inside the keybase
 Create(p) ==
@@ -82,9 +100,9 @@ Create(p) ==
            /\ UNCHANGED <<arm, known, cb>>
            /\ Emit(Label("Create", k, p, NoPass, NoArm, Res("ok", k)))
 
-\* ImportPrivateKeyObject(privateKey, encryptPassphrase)
+\* ImportPrivateKeyObject(privateKey [64]byte, encryptPassphrase): raw ed25519 keys only
 ImportObj(k, p) ==
-    /\ k \in known
+    /\ k \in known \ Secp
     /\ IF store[k] # NoPass
        THEN UNCHANGED state /\ Emit(Label("ImportObj", k, p, NoPass, NoArm, Res("exists", 0)))
        ELSE /\ store' = [store EXCEPT ![k] = p]
@@ -101,6 +119,15 @@ ImportArm(a, dp, ep) ==
        ELSE /\ store' = [store EXCEPT ![a.k] = ep]
             /\ UNCHANGED <<arm, known, created, cb>>
             /\ Emit(Label("ImportArm", a.k, dp, ep, a, Res("ok", a.k)))
+
+\* mintkey.EncryptArmorPrivKey(privateKey, passphrase, hint) by the client, outside the keybase: an armor as
+\* another keybase or wallet would export it - the only way a secp256k1 key reaches the keybase
+ArmorRaw(k, p) ==
+    /\ k \in known
+    /\ (Armor(k, p) \in arm \/ Cardinality(arm) < MaxArm)                   \* bound of the model
+    /\ arm' = arm \cup {Armor(k, p)}
+    /\ UNCHANGED <<store, known, created, cb>>
+    /\ Emit(Label("ArmorRaw", k, p, NoPass, Armor(k, p), Res("ok", k)))
 
 \* ImportPrivKey with something that is not an armor
 ImportJunk(dp, ep) ==
@@ -185,6 +212,7 @@ Next ==
     \/ \E p \in Passes : Create(p)
     \/ \E k \in Keys, p \in Passes : ImportObj(k, p)
     \/ \E a \in arm, dp \in Passes, ep \in Passes : ImportArm(a, dp, ep)
+    \/ \E k \in Keys, p \in Passes : ArmorRaw(k, p)
     \/ \E dp \in Passes, ep \in Passes : ImportJunk(dp, ep)
     \/ \E k \in Keys, old \in Passes, new \in Passes : Update(k, old, new)
     \/ \E k \in Keys, dp \in Passes, ep \in Passes : ExportArm(k, dp, ep)
@@ -218,24 +246,109 @@ StepProp ==
     /\ RightPass(l) => l.res.class = "ok"
     \* a call touches only the key it names
     /\ \A k \in Keys : store'[k] # store[k] => k = l.k
+    \* an import never overwrites a key that is in the store - of either type, whatever the passphrases
+    /\ (l.op \in {"ImportArm", "ImportObj"} /\ store[l.k] # NoPass) => l.res.class # "ok" /\ store' = store
     \* created / imported keys are listed and usable under the encryption passphrase given
     /\ (l.op \in {"Create", "ImportObj"} /\ l.res.class = "ok") => store'[l.k] = l.p
     \* importing an export under the right passphrase yields the same key (= the same address)
     /\ (l.op = "ImportArm" /\ l.res.class = "ok") => l.res.key = l.a.k /\ store'[l.a.k] = l.q
     \* Update re-encrypts: afterwards exactly the new passphrase opens the key
     /\ (l.op = "Update" /\ l.res.class = "ok") => store'[l.k] = l.q
-    \* an exported armor opens under its encryption passphrase and holds the exported key
-    /\ (l.op = "ExportArm" /\ l.res.class = "ok") => Armor(l.k, l.q) \in arm'
+    \* an exported armor opens under its encryption passphrase (the empty one included: no other
+    \* passphrase is ever substituted) and holds the exported key
+    /\ (l.op = "ExportArm" /\ l.res.class = "ok") => Armor(l.k, l.q) \in arm' /\ l.a = Armor(l.k, l.q)
+    /\ (l.op = "ArmorRaw" /\ l.res.class = "ok") => Armor(l.k, l.p) \in arm'
     \* Delete removes exactly the named key, and only under its passphrase
     /\ (l.op = "Delete" /\ l.res.class = "ok") => store[l.k] = l.p /\ store'[l.k] = NoPass
     \* signing, exporting and looking up change nothing in the store
-    /\ l.op \in {"Sign", "Get", "ExportObj", "ExportArm", "SetCoinbase", "GetCoinbase", "ImportJunk"} => store' = store
+    /\ l.op \in {"Sign", "Get", "ExportObj", "ExportArm", "ArmorRaw", "SetCoinbase", "GetCoinbase", "ImportJunk"} => store' = store
 
 StepOK == [][StepProp]_vars
 
 \* raw keys and armors in the client's hands only ever come from successful calls
 Inv_KnownFromExports == \A k \in known : k <= NKnown \/ k \in created
 Inv_ArmorsOfKnownKeys == \A a \in arm : a.k <= NKnown \/ a.k \in created
+
+-----------------------------------------------------------------------------
+(* Scenario programs: the export / import round trip and the life of a key  *)
+(* as CASE TABLES.  A program is a list of calls; a scenario run starts     *)
+(* with one program of the table (InitProg) and performs its calls in       *)
+(* order with the actions above (NextProg), so the results, List() and the  *)
+(* store after every call are those of this specification, StepOK is        *)
+(* checked on every step, and the finished run is printed for the replayer. *)
+(* k ranges over all keys, i.e. over the three ways a key gets in: raw      *)
+(* ed25519 key (ImportObj), armored secp256k1 key (ArmorRaw + ImportArm),   *)
+(* generated inside (Create).  All passphrase parameters range over ALL     *)
+(* passphrases, the empty one included.                                     *)
+
+\* how key k first enters the keybase and ends up stored under s (x: the passphrase of the foreign armor)
+Enter(k, x, s) ==
+    IF k \in Secp THEN << Call("ArmorRaw", k, x, NoPass, NoArm), Call("ImportArm", k, x, s, Armor(k, x)) >>
+    ELSE IF k <= NKnown THEN << Call("ImportObj", k, s, NoPass, NoArm) >>
+    ELSE << Call("Create", k, s, NoPass, NoArm) >>
+\* the same key offered again while it is stored, to be re-encrypted under q: must be refused
+ReEnter(k, x, q) ==
+    IF k \in Secp THEN << Call("ImportArm", k, x, q, Armor(k, x)) >>
+    ELSE IF k <= NKnown THEN << Call("ImportObj", k, q, NoPass, NoArm) >>
+    ELSE << >>
+EnterPasses(k) == IF k \in Secp THEN Passes ELSE {NoPass}
+
+\* round trip: the key stored under s is exported under ep; the export is offered back with decrypt
+\* passphrase dp / encrypt passphrase q while the key is still there (refused, nothing changes, the owner's
+\* passphrase still signs), the key is deleted, the export is imported (works iff dp = ep; then exactly q opens it)
+RoundTrip(k, x, s, ep, dp, q) ==
+    Enter(k, x, s) \o ReEnter(k, x, q) \o
+    << Call("ExportArm", k, s, ep, NoArm),
+       Call("ImportArm", k, dp, q, Armor(k, ep)),
+       Call("Sign", k, s, NoPass, NoArm),
+       Call("Delete", k, s, NoPass, NoArm),
+       Call("ImportArm", k, dp, q, Armor(k, ep)),
+       Call("Sign", k, q, NoPass, NoArm),
+       Call("Sign", k, s, NoPass, NoArm) >>
+
+\* life of a key: stored under s, re-encrypted under n, every use tried with both passphrases
+Life(k, x, s, n) ==
+    Enter(k, x, s) \o
+    << Call("Get", k, NoPass, NoPass, NoArm),
+       Call("Sign", k, n, NoPass, NoArm),
+       Call("Update", k, n, s, NoArm),
+       Call("Update", k, s, n, NoArm),
+       Call("Sign", k, s, NoPass, NoArm),
+       Call("Sign", k, n, NoPass, NoArm),
+       Call("ExportObj", k, s, NoPass, NoArm),
+       Call("ExportObj", k, n, NoPass, NoArm),
+       Call("SetCoinbase", k, NoPass, NoPass, NoArm),
+       Call("Delete", k, s, NoPass, NoArm),
+       Call("Delete", k, n, NoPass, NoArm),
+       Call("Get", k, NoPass, NoPass, NoArm) >>
+
+Programs ==
+    { [tag |-> <<"RoundTrip", k, x, s, ep, dp, q>>, calls |-> RoundTrip(k, x, s, ep, dp, q)] :
+          k \in Keys, x \in Passes \cup {NoPass}, s \in Passes, ep \in Passes, dp \in Passes, q \in Passes }
+    \cup
+    { [tag |-> <<"Life", k, x, s, n>>, calls |-> Life(k, x, s, n)] :
+          k \in Keys, x \in Passes \cup {NoPass}, s \in Passes, n \in Passes }
+
+\* the action a call stands for
+Do(c) ==
+    CASE c.op = "Create"      -> Create(c.p)
+      [] c.op = "ImportObj"   -> ImportObj(c.k, c.p)
+      [] c.op = "ArmorRaw"    -> ArmorRaw(c.k, c.p)
+      [] c.op = "ImportArm"   -> ImportArm(c.a, c.p, c.q)
+      [] c.op = "Update"      -> Update(c.k, c.p, c.q)
+      [] c.op = "ExportArm"   -> ExportArm(c.k, c.p, c.q)
+      [] c.op = "ExportObj"   -> ExportObj(c.k, c.p)
+      [] c.op = "Delete"      -> Delete(c.k, c.p)
+      [] c.op = "Sign"        -> Sign(c.k, c.p)
+      [] c.op = "Get"         -> Get(c.k)
+      [] c.op = "SetCoinbase" -> SetCoinbase(c.k)
+
+InitProg == InitState /\ prog \in { pr \in Programs : pr.tag[3] \in EnterPasses(pr.tag[2]) }
+\* a finished run stutters; a program with a call that cannot be made deadlocks (CHECK_DEADLOCK TRUE)
+NextProg == IF prog.calls = <<>> THEN UNCHANGED vars ELSE Do(Head(prog.calls))
+SpecProg == InitProg /\ [][NextProg]_vars
+\* a finished run is printed: the calls with their results, List() and the store after each
+PrintProgram == (prog.tag # <<>> /\ prog.calls = <<>>) => PrintT(ToJson([program |-> hist, tag |-> prog.tag]))
 
 \* ---- output for the replayer ----------------------------------------------
 \* simulation: print the behaviour when it has reached its length
